@@ -59,7 +59,8 @@ prop("C07", [
     H("H07_seq", quick={"wall": "140s", "shards": 2, "param": "fixN=3,maxL=2,maxLocs=0,variants=1,allHits=1,allFlags=1"}, thorough={"wall": "1500s", "shards": 16, "param": "fixN=5,maxL=3,maxLocs=0,variants=1,allHits=1,allFlags=1"}),
 ])
 prop("C08", [H("H08_tmp"), H("H08_dict", quick={"wall": "175s", "shards": 16, "param": "provs=6,lite=1"}, thorough={"wall": "1500s", "shards": 16, "param": "provs=6"})])
-prop("C12", [H("K5_synonym"), H("H12_syn", quick={"wall": "140s", "shards": 16, "param": "maxSyn=2"}, thorough={"wall": "1500s", "shards": 16, "param": "maxSyn=3"})])
+prop("C12", [H("K5_synonym"), H("H12_syn", quick={"wall": "140s", "shards": 16, "param": "maxSyn=2"}, thorough={"wall": "1500s", "shards": 16, "param": "maxSyn=3"}),
+             H("H10_syn", quick={"wall": "140s", "shards": 8}, thorough={"wall": "1500s", "shards": 16, "param": "aSyn=2,bSyn=2"})])
 prop("C13", [H("H13_synmerge", common={"param": "maxSyn=1,maxSyn0=2,emptyTerm=0,drop1=0,reopen=0"}, quick={"wall": "140s", "shards": 6}, thorough={"skip": True}),
              H("H13_synmerge", quick={"wall": "140s", "shards": 16, "param": "maxSyn=1,emptyTerm=1,drop1=0,reopen=0"}, thorough={"wall": "1500s", "shards": 16, "param": "maxSyn=2,emptyTerm=1,twoGen=1"})])
 prop("C11", [H("H11_pool", quick={"wall": "100s", "shards": 8}), H("H11_effects", common={"race": True}, quick={"wall": "100s", "shards": 7}), H("H11_syn", common={"race": True})])
@@ -68,7 +69,9 @@ prop("C17", [H("H17_writeTo"), H("H17_persist"),
              H("H17_merge", common={"param": "mergeBuf=64"}, quick={"wall": "100s"})])
 prop("C18", [H("H18_cancel", quick={"wall": "100s"})])
 prop("C20", [H("H20_refs", common={"param": "maxOps=6"}, quick={"wall": "150s", "shards": 8}, thorough={"wall": "900s", "shards": 16, "param": "maxOps=8"}), H("H20_openfail"), H("H20_lockset", common={"race": True})])
-prop("C10", [H("H10_effects", quick={"wall": "140s", "shards": 4}), H("H10_seq", quick={"wall": "140s", "shards": 16, "param": "aMax=1,bMax=1"}, thorough={"wall": "1500s", "shards": 16, "param": "aMax=2,bMax=2"})])
+prop("C10", [H("H10_effects", quick={"wall": "140s", "shards": 4}), H("H10_seq", quick={"wall": "140s", "shards": 16, "param": "aMax=1,bMax=1"}, thorough={"wall": "1500s", "shards": 16, "param": "aMax=2,bMax=2"}),
+             # synonym batch after synonym batch on the pooled builder (fewer / more / equal numbers of terms)
+             H("H10_syn", quick={"wall": "140s", "shards": 8}, thorough={"wall": "1500s", "shards": 16, "param": "aSyn=2,bSyn=2"})])
 prop("C09", [H("H06_large", quick={"wall": "140s", "shards": 6, "shard-depth": 3, "param": "nBlocks=3,nProbes=2"}, thorough={"skip": True}), H("K1_chunksize"), H("K1_chunktable"), H("K7_footer"), H("K6_boundaries"),
              # files written by the pinned release (harness/corpus_data.go, frozen) read by the current code
              H("H09_corpus"),
